@@ -310,7 +310,13 @@ func runC05(c *fw.Check) {
 		}
 		fl := c05faults(v)
 		for fi, f := range fl {
+			// The translator iterates over Go maps: a change that makes the verdict depend on
+			// that order is only visible in some runs, so every fault is parsed up to 10 times and any
+			// acceptance or panic counts (C12 explores the orders systematically).
 			m, errs, pan := parseTry(f.text)
+			for rep := 0; rep < 9 && m == nil && errs != "" && pan == ""; rep++ {
+				m, errs, pan = parseTry(f.text)
+			}
 			ok := m == nil && errs != "" && pan == ""
 			what := ""
 			switch {
